@@ -1,4 +1,7 @@
+import Props.GenIterator
 import Props.GenTraverse
 open Model.SlicesGen
 #print axioms traverse_eq
 #print axioms traverse_eq_some
+#print axioms iterator_eq_fuel
+#print axioms iterator_eq
